@@ -1,12 +1,180 @@
-/- Driver operations of contributor `Fx` (translated-code ties): run GENERATED functions so the harness can compare them with the real code.
+/- Driver operations of contributor `Fx` (translated-code ties): run GENERATED effect programs (Gen/Fx.lean) in a small concrete
+   world so the harness can compare the calls they make — with their arguments, in order — with the traces recorded from the real code.
    Wired into the cluster drivers by a fall-through; return `none` for names that are not yours. -/
 import PdbVerif.Driver.Json
+import PdbVerif.Driver.SpecF
+import PdbVerif.Model.Effects
+import PdbVerif.Gen.Fx
 
 namespace Driver.ExtFx
-open Lean Driver
+open Lean Driver Py
+
+def sJ (s : Py.Str) : Json := .str (String.ofList s)
+def oJ : Option Py.Str → Json
+  | some p => sJ p
+  | none => .str ":memory:"
+
+def eventJ : Fx.Event Py.Str Py.Str → Json
+  | .isfile p b => .arr #[.str "isfile", sJ p, .bool b]
+  | .pathExists p b => .arr #[.str "exists", sJ p, .bool b]
+  | .remove p => .arr #[.str "remove", sJ p]
+  | .connect d => .arr #[.str "connect", oJ d]
+  | .cursor d => .arr #[.str "cursor", oJ d]
+  | .commit d => .arr #[.str "commit", oJ d]
+  | .close d => .arr #[.str "close", oJ d]
+  | .openw p m => .arr #[.str "open", sJ p, .str m.tag]
+  | .write p c => .arr #[.str "write", sJ p, sJ c]
+  | .fclose p => .arr #[.str "fclose", sJ p]
+  | .mkstemp d a b n => .arr #[.str "mkstemp", sJ d, sJ a, sJ b, sJ n]
+  | .replace s d => .arr #[.str "replace", sJ s, sJ d]
+  | .readlines p => .arr #[.str "readlines", sJ p]
+
+def optS (j : Json) (k : String) : Option Py.Str :=
+  match j.getObjVal? k with
+  | .ok (.str s) => some s.toList
+  | _ => none
+
+def optB (j : Json) (k : String) (d : Bool) : Bool :=
+  match j.getObjVal? k with
+  | .ok (.bool b) => b
+  | _ => d
+
+def strs (j : Json) (k : String) : List Py.Str :=
+  match j.getObjVal? k with
+  | .ok (.arr a) => a.toList.filterMap (fun x => match x with | .str s => some s.toList | _ => none)
+  | _ => []
+
+/-- files of the world: [[name, [chunk, …]], …] -/
+def filesOf (j : Json) : List (Py.Str × List Py.Str) :=
+  match j.getObjVal? "files" with
+  | .ok (.arr a) => a.toList.filterMap (fun x => match x with
+      | .arr #[.str n, .arr cs] => some (n.toList, cs.toList.filterMap (fun c => match c with | .str s => some s.toList | _ => none))
+      | _ => none)
+  | _ => []
+
+def zoneOf (j : Json) : Except String (List (Py.Str × Int)) := do
+  let a ← jArr j "data"
+  a.toList.mapM (fun x => match x with
+    | .arr #[.str c, n] => do pure (c.toList, ← asInt n)
+    | _ => .error "zone entry")
+
+def selfJ (s : Fx.Self Py.Str) : Json :=
+  Json.mkObj [("sqlfile", oJ s.sqlfile), ("conn", match s.conn with | some c => oJ c.db | none => .null),
+    ("c", match s.c with | some c => oJ c.db | none => .null)]
+
+def answer {α : Type} (toJ : α → Json) (r : List (Fx.Event Py.Str Py.Str) × Fx.World Py.Str Py.Str × Except Py.Err α) : Json :=
+  Json.mkObj [("events", .arr (r.1.map eventJ).toArray),
+    ("outcome", match r.2.2 with | .ok _ => .str "ok" | .error e => errJ e),
+    ("value", match r.2.2 with | .ok a => toJ a | .error _ => .null),
+    ("files", .arr (r.2.1.files.map (fun f => Json.arr #[sJ f.1, sJ f.2.flatten])).toArray)]
+
+/-- the object as the harness describes it: `sqlfile` (absent = None), `connected` (the connection exists already) -/
+def selfOf (j : Json) : Fx.Self Py.Str :=
+  let sq := optS j "sqlfile"
+  let connected := optB j "connected" false
+  { sqlfile := sq, verbose := optB j "verbose" false, fix_chainID := optB j "fix_chainID" false,
+    conn := if connected then some ⟨sq⟩ else none, c := if connected then some ⟨sq⟩ else none }
+
+/-- stand-ins for the callee programs that are parameters of a unit: each makes ONE recognisable call -/
+def markCompute (tag : Py.Str) (save : Bool) (fn : Option Py.Str) : Fx.Prog Py.Str Py.Str Py.Str :=
+  .pathExists (tag ++ (if save then "(save_file=True,filename=".toList else "(save_file=False,filename=".toList) ++ (fn.getD "None".toList) ++ [')'])
+    (fun _ => .pure "computed".toList)
+def markRead (f : Py.Str) : Fx.Prog Py.Str Py.Str Py.Str := .pathExists ("read_zone(".toList ++ f ++ [')']) (fun _ => .pure "read".toList)
+
+/-! ### the hand model's program of a fast routine / zone routine when the ZONE COMPUTATION FAILS on the reference (a reference without
+    exactly two chains, or one that does not parse): `Work.computeErr` set; same answer format as `Driver.ModelF.effectsOp` -/
+
+open Spec.C16 Model.C16 in
+def zoneFailWork : Model.C16.Work String (List String) String where
+  compute := fun _ rc => rc
+  computeErr := fun _ _ => some .valueError
+  render := id
+  parse := fun c => if c == ["garbage"] then .error .valueError else .ok c
+  check := fun r stage _ => match r, stage with
+    | .lzone, 0 | .izone, 0 => .error .valueError        -- the zone ROUTINES fail at their first check (Model.C16.prog: `checked`)
+    | _, _ => .ok ()
+  score := fun _ _ _ => .ok "value"
+  exportLines := fun _ _ _ => ["ATOM"]
+  sameAtoms := fun _ => true
+
+open Spec.C16 Model.C16 in
+def zoneFailOp (r : Routine) (j : Json) : Except String Json := do
+  let zone := match j.getObjVal? "zone" with | .ok (.str s) => s | _ => "none"
+  let a : Args String := { decoy := "decoy", ref := "ref", tmp := "tmp", zone := if zone == "none" then none else some "zone" }
+  let fs : FS String String := fun p =>
+    if p == "decoy" then some ["d"] else if p == "ref" then some ["r"]
+    else if p == "zone" && zone == "present" then some ["z"] else none
+  let t : Prog String String String := prog zoneFailWork r a
+  let res := t.exec fs
+  let outcome : Json := match res.2 with | .ok _ => .str "ok" | .error e => .str e.tag
+  let final := ["decoy", "ref", "zone", "tmp", "out1", "out2"].filter (fun p => (res.1 p).isSome)
+  pure (Json.mkObj [("trace", .arr ((t.trace fs).map Driver.SpecF.actJ).toArray), ("outcome", outcome),
+    ("final", .arr (final.map Json.str).toArray)])
 
 def op (name : String) (j : Json) : Except String (Option Json) := do
+  let chk := optB j "check" true
   match name with
-  | _ => pure none
+  | "effects_zonefail_lrmsd_fast" => return some (← zoneFailOp (.lrmsdFast chk) j)
+  | "effects_zonefail_irmsd_fast" => return some (← zoneFailOp (.irmsdFast chk) j)
+  | "effects_zonefail_lzone" => return some (← zoneFailOp .lzone j)
+  | "effects_zonefail_izone" => return some (← zoneFailOp .izone j)
+  | _ => pure ()
+  if name != "fx_run" then return none
+  let fn ← jStr j "fn"
+  let tmp := (optS j "tmpname").getD "TMP".toList
+  let w : Fx.World Py.Str Py.Str := { files := filesOf j, tmpName := fun _ _ _ => tmp }
+  match fn with
+  | "create_sql" => pure (some (answer selfJ ((GenF._create_sql (selfOf j)).run w)))
+  | "commit" => pure (some (answer selfJ ((GenF._commit (selfOf j)).run w)))
+  | "close" => pure (some (answer selfJ ((GenF._close (selfOf j) (optB j "rmdb" GenF._close_rmdb_default)).run w)))
+  | "init" =>
+    -- `_create_table` / `_fix_chainID` are parameters: one recognisable call each
+    let ct : Fx.Self Py.Str → Py.Str → Py.Str → Fx.Prog Py.Str Py.Str (Fx.Self Py.Str) :=
+      fun s f t => .pathExists ("_create_table(".toList ++ f ++ [','] ++ t ++ [')']) (fun _ => .pure s)
+    let fx : Fx.Self Py.Str → Fx.Prog Py.Str Py.Str (Fx.Self Py.Str) := fun s => .pathExists "_fix_chainID()".toList (fun _ => .pure s)
+    pure (some (answer selfJ ((GenF.pdb2sql_init ct fx (selfOf j) ((optS j "pdbfile").getD []) ((optS j "tablename").getD "atom".toList)).run w)))
+  | "write_zone" =>
+    let data ← zoneOf j
+    pure (some (answer (fun _ => Json.null) ((GenF._write_zone ((optS j "filename").getD []) data).run w)))
+  | "read_zone_io" =>
+    pure (some (answer (fun (ls : List Py.Str) => Json.arr (ls.map sJ).toArray) ((GenF.read_zone_io ((optS j "filename").getD [])).run w)))
+  | "lrmsd_zone" =>
+    pure (some (answer sJ ((GenF.compute_lrmsd_fast_zone (markCompute "compute_lzone".toList) markRead (optS j "zone")).run w)))
+  | "irmsd_zone" =>
+    pure (some (answer sJ ((GenF.compute_irmsd_fast_zone (fun (_ : Unit) => markCompute "compute_izone".toList) markRead (optS j "zone") ()).run w)))
+  | "izone_rowid" =>
+    pure (some (answer sJ ((GenF.get_izone_rowID_io markRead ((optS j "zone").getD [])).run w)))
+  | "lzone_save" =>
+    let data ← zoneOf j
+    pure (some (answer (fun _ => Json.null) ((GenF.compute_lzone_save ((optS j "ref").getD []) (optB j "save_file" true) (optS j "filename") data).run w)))
+  | "izone_save" =>
+    let data ← zoneOf j
+    pure (some (answer (fun _ => Json.null) ((GenF.compute_izone_save ((optS j "ref").getD []) (optB j "save_file" true) (optS j "filename") data).run w)))
+  | "pairs_save" =>
+    pure (some (answer (fun _ => Json.null)
+      ((GenF.compute_residue_pairs_ref_save ((optS j "ref").getD []) (fun (_ : Unit) => "PICKLE".toList) (optB j "save_file" true) (optS j "filename") ()).run w)))
+  | "exportpdb" =>
+    let rows ← (← jArr j "rows").toList.mapM atomOfJson
+    let get : Py.Str → Py.Str → Unit → Except Py.Err (List Py.Atom) := fun _ _ _ => .ok rows
+    pure (some (answer (fun _ => Json.mkObj [("cols", sJ (Fx.joinStr [','] GenF.col_keys))])
+      ((GenF.exportpdb get ((optS j "fname").getD []) (optB j "append" GenF.exportpdb_append_default)
+        ((optS j "tablename").getD GenF.exportpdb_tablename_default) ()).run w)))
+  | "sql2pdb" =>
+    let rows ← (← jArr j "rows").toList.mapM atomOfJson
+    let get : Py.Str → Py.Str → Unit → Except Py.Err (List Py.Atom) := fun _ _ _ => .ok rows
+    pure (some (Json.mkObj [("lines", exceptJ (fun (ls : List Py.Str) => Json.arr (ls.map sJ).toArray) (GenF.sql2pdb get "atom".toList ()))]))
+  | "lrmsd_export" | "irmsd_export" =>
+    -- the objects are their names; `exportpdb` / `_close` are parameters: one recognisable call each
+    let ex : Py.Str → Py.Str → Bool → Py.Str → List (Py.Str × Py.Str) → Fx.Prog Py.Str Py.Str Unit :=
+      fun o f a t kw => .openw f (if a then .a else .w)
+        (.write f (o ++ ".exportpdb(tablename=".toList ++ t ++ (kw.flatMap (fun kv => [','] ++ kv.1 ++ ['='] ++ kv.2)) ++ [')']) (.fclose f (.pure ())))
+    let cl : Py.Str → Bool → Fx.Prog Py.Str Py.Str Unit := fun o rm => .close (some (o ++ (if rm then "._close(rmdb=True)" else "._close(rmdb=False)").toList)) (.pure ())
+    let ep := optS j "exportpath"
+    if fn == "lrmsd_export" then
+      pure (some (answer (fun _ => Json.null) ((GenF.compute_lrmsd_pdb2sql_export ex cl ep "sql_decoy".toList "sql_ref".toList).run w)))
+    else
+      pure (some (answer (fun _ => Json.null)
+        ((GenF.compute_irmsd_pdb2sql_export ex cl ep "sql_decoy".toList "sql_ref".toList "index_contact_decoy".toList "index_contact_ref".toList).run w)))
+  | _ => .error s!"fx_run: unknown fn {fn}"
 
 end Driver.ExtFx
